@@ -130,7 +130,7 @@ Proof.
   - unfold h_append in H1. c_solve.
   - unfold h_strlen in H1. c_solve.
   - unfold h_getrange in H1. c_solve.
-  - unfold h_setrange in H1. c_solve.
+  - unfold h_setrange, eng_setrange in H1. c_solve.
   - unfold h_type in H1. c_solve.
   - unfold h_rename in H1. destruct (negb (nparts parts =? 3)); [inversion H1; subst; exact Hw|].
     destruct (nth_arg parts 1); [|inversion H1; subst; exact Hw].
